@@ -20,6 +20,9 @@ def enrich(rng, d):
             e.update({"fuel": "NATURAL_GAS", "cycle": rng.choice(["OTTO", "DIESEL", "LEAN_BURN_SPARK_IGNITION"])})
         elif u < 0.4:
             e.update({"fuel": rng.choice(["HFO", "VLSFO", "METHANOL"])})
+        # the same kind of fuel from another origin (bio-diesel next to fossil diesel, e-methanol, bio-LNG)
+        if e.get("fuel", "DIESEL") in ("DIESEL", "NATURAL_GAS", "METHANOL") and rng.random() < 0.35:
+            e["origin"] = rng.choice(["BIO", "RENEWABLE_NON_BIO"])
         if rng.random() < 0.4:
             em = {}
             for sp in rng.sample(["CO", "PM", "HC", "CH4", "SOX"], rng.randint(1, 2)):
